@@ -15,6 +15,12 @@ package direct
 //@   modifies p.cachedDomain, p.cachedDomainIP
 //@   ensures isnil(err) ==> packetStart == payloadStart && packetLen == payloadLen
 //@   ensures isnil(err) ==> packetLen <= zerocopy.MaxPacketSizeForAddr(p.mtu, destAddrPort.Addr())
+// The datagram leaves towards the named target: its own port always, its own IP for an IP target, and for a
+// domain target the address the cache holds for exactly that domain.
+//@   ensures isnil(err) ==> destAddrPort.Port() == targetAddr.Port()
+//@   ensures isnil(err) && targetAddr.IsIP() ==> destAddrPort == targetAddr.IPPort()
+//@   ensures isnil(err) && targetAddr.IsDomain() ==> p.cachedDomain == targetAddr.Domain() && destAddrPort.Addr() == p.cachedDomainIP
+//@   ensures isnil(err) && targetAddr.IsDomain() && old(p.cachedDomain) == targetAddr.Domain() ==> p.cachedDomainIP == old(p.cachedDomainIP)
 
 //@ func (DirectPacketClientUnpacker).UnpackInPlace
 //@   modifies nothing
